@@ -104,10 +104,76 @@ func c06Run(line string) string {
 		if t == "" {
 			continue
 		}
-		// aliases are normalised for the model by the generator, not here
-		outs = append(outs, c06RunTok(q, t))
+		for _, e := range c06Expand(t) {
+			outs = append(outs, c06RunTok(q, e))
+		}
 	}
 	return strings.Join(outs, " | ")
+}
+
+// c06Expand expands the repetition token `*<count> <op>`; repeated insertions insert consecutive values
+// v, v+1, ... (the Lean side, `expandTok`, does the same).
+func c06Expand(t string) []string {
+	if !strings.HasPrefix(t, "*") {
+		return []string{t}
+	}
+	parts := strings.Split(t, " ")
+	if len(parts) != 2 {
+		return []string{"?"}
+	}
+	n, err := strconv.Atoi(parts[0][1:])
+	if err != nil || n < 0 {
+		return []string{"?"}
+	}
+	op := parts[1]
+	res := make([]string, n)
+	for i := range res {
+		res[i] = op
+	}
+	if len(op) > 2 && op[1] == ':' && strings.ContainsRune("oOHu", rune(op[0])) {
+		v, err := strconv.Atoi(op[2:])
+		if err != nil {
+			return []string{"?"}
+		}
+		for i := range res {
+			res[i] = op[:2] + strconv.Itoa(v+i)
+		}
+	}
+	return res
+}
+
+// c06Long: long histories that cross plausible internal thresholds of the node pool / the lists (powers of two,
+// +-1): burst-fill and drain, KeepNodePoolCount with a large argument while items are stored, Clear of a large
+// queue, each followed by mixed head/tail traffic, a final drain and the bookkeeping probe.
+func c06Long(sizes []int, lightFrom int, rng *rand.Rand, emit func(string)) int {
+	n := 0
+	it := strconv.Itoa
+	tail := " ; N ; c ; k ; s ; k ; c ; N ; p ; c ; u:7001 ; o:7002 ; N ; s ; p ; k ; c ; *4 s ; *3 p ; N ; c ; o:7003 ; k ; p ; N"
+	for _, t := range sizes {
+		for d := -1; d <= 1; d++ {
+			m := t + d
+			if m < 1 {
+				continue
+			}
+			keep := 2 + rng.Intn(3)
+			rem := []string{"s", "p", "P", "T"}[rng.Intn(4)]
+			// burst of m+keep items, drained to `keep` items from one end: m nodes pooled, `keep` items stored
+			emit("*" + it(m+keep) + " o:1 ; *" + it(m) + " " + rem + tail)
+			n++
+			// KeepNodePoolCount(m) while items are stored, then traffic, then shrink / clear the pool
+			emit("*" + it(keep) + " o:1 ; n:" + it(m) + tail + " ; *" + it(keep+2) + " o:50 ; n:" + it(m/2) + " ; N ; *3 s ; N ; z ; N ; *3 p ; c ; N")
+			n++
+			if t >= lightFrom && d != 0 {
+				continue // the two quadratic-cost templates only at the threshold itself
+			}
+			// the same through Unshift / the other end, draining completely and refilling from the pool
+			emit("*" + it(m+keep) + " u:1 ; *" + it(m-1) + " p ; N ; *2 s ; N ; c ; k ; *" + it(m+keep+3) + " p ; N ; *" + it(m+2) + " H:1 ; N ; c ; *3 T ; *3 p ; N")
+			// Clear of a large queue (m nodes become the free list), then traffic and reuse of all pooled nodes
+			emit("*" + it(m) + " o:1 ; x ; N ; *" + it(keep) + " o:1" + tail + " ; *" + it(m+2) + " u:100 ; N ; c ; *3 p ; k ; *3 s ; N ; x ; N ; c")
+			n += 2
+		}
+	}
+	return n
 }
 
 // c06Concrete turns op letters into tokens; the k-th insertion inserts k (so every stored value is distinct
@@ -160,6 +226,15 @@ func c06Gen(tier string, rng *rand.Rand, emit func(string)) map[string]interface
 	for _, d := range c06Directed {
 		emit(d)
 	}
+	longSizes := []int{64, 128, 256, 512, 1024, 2048, 4096}
+	if tier == "thorough" {
+		longSizes = append(longSizes, 8192)
+	}
+	lightFrom := 4096
+	if tier == "thorough" {
+		lightFrom = 1 << 30
+	}
+	long := c06Long(longSizes, lightFrom, rng, emit)
 	opCount := map[string]int{}
 	exhaustive := 0
 	var rec func(prefix []string)
@@ -246,10 +321,43 @@ func c06Gen(tier string, rng *rand.Rand, emit func(string)) map[string]interface
 		}
 		emit(strings.Join(ops, " ; ") + " ; N ; c")
 	}
+	// random histories built from bursts whose sizes sit around powers of two
+	nBurst := 16
+	if tier == "thorough" {
+		nBurst = 120
+	}
+	for i := 0; i < nBurst; i++ {
+		size := func() int {
+			base := []int{64, 128, 256, 512, 1024, 1024, 1024, 2048}[rng.Intn(8)]
+			return base + rng.Intn(5) - 2
+		}
+		k := 5 + rng.Intn(9)
+		ops := make([]string, 0, k+8)
+		for j := 0; j < k; j++ {
+			switch r := rng.Intn(100); {
+			case r < 30:
+				ops = append(ops, "*"+strconv.Itoa(size())+" "+[]string{"o", "o", "u", "H"}[rng.Intn(4)]+":"+strconv.Itoa(1+rng.Intn(1000)))
+			case r < 55:
+				ops = append(ops, "*"+strconv.Itoa(size())+" "+[]string{"s", "p", "P", "T"}[rng.Intn(4)])
+			case r < 65:
+				ops = append(ops, "n:"+strconv.Itoa(size()))
+			case r < 70:
+				ops = append(ops, "x")
+			case r < 73:
+				ops = append(ops, "z")
+			case r < 85:
+				ops = append(ops, "*"+strconv.Itoa(2+rng.Intn(3))+" "+[]string{"o:1", "u:1", "s", "p"}[rng.Intn(4)])
+			default:
+				ops = append(ops, []string{"N", "c", "k"}[rng.Intn(3)])
+			}
+		}
+		emit(strings.Join(ops, " ; ") + " ; N ; c ; k ; *3 s ; *3 p ; N ; c")
+	}
 	return map[string]interface{}{
+		"random_burst_cases": nBurst,
 		"exhaustive": false, "exhaustive_prefix_scope": "all op sequences of length 1.." + strconv.Itoa(maxLen) + " over 12 ops, each followed by a state-reading drain",
 		"exhaustive_cases": exhaustive, "deeper_scope": "all op sequences of length " + strconv.Itoa(maxLen+1) + " over the 8 shape-changing ops " + strings.Join(c06CoreAlphabet, ","),
-		"deeper_cases": deep, "directed_cases": len(c06Directed), "random_cases": nRandom, "random_max_len": randLen, "random_op_mix": opCount,
+		"deeper_cases": deep, "directed_cases": len(c06Directed), "long_threshold_cases": long, "long_threshold_sizes": longSizes, "random_cases": nRandom, "random_max_len": randLen, "random_op_mix": opCount,
 	}
 }
 
